@@ -254,7 +254,7 @@ func cmdCheck(args []string) int {
 	genS := time.Since(start).Seconds() - loadS
 
 	// ---- discharge
-	opts := solveOpts{timeoutS: 10, retryS: 60, workers: 12}
+	opts := solveOpts{timeoutS: 10, retryS: 30, workers: 12}
 	if *tier == "thorough" {
 		opts = solveOpts{timeoutS: 30, retryS: 120, both: true, workers: 8}
 	}
